@@ -243,6 +243,8 @@ def ACC():
         'to.UnitQuaternion': (P3, lambda x: S().UnitQuaternion(x)), 'to.SO3': (['UnitQuaternion'], lambda x: x.SO3()),
         'to.SE3': (['UnitQuaternion', 'SE2'], lambda x: x.SE3()), 'to.SE2': (['SO2'], lambda x: x.SE2()),
         'to.Twist': (['SE2', 'SE3'], lambda x: x.Twist3() if type(x).__name__ == 'SE3' else x.Twist2()),
+        'to.Twist.ctor': (['SE2', 'SE3'], lambda x: S().Twist3(x) if type(x).__name__ == 'SE3' else S().Twist2(x)),
+        'to.SE.from_Twist': (TW, lambda x: S().SE3(x) if type(x).__name__ == 'Twist3' else S().SE2(x)),
         'to.SO3.from_SE3': (['SE3'], lambda x: S().SO3(x)), 'to.SO2.from_SE2': (['SE2'], lambda x: S().SO2(x)),
         'Ad': (['SE3'], lambda x: x.Ad()), 'jacob': (['SE3'], lambda x: x.jacob()),
         # twists: every per-value member documented on the Twist classes
@@ -359,7 +361,40 @@ def run_scalar(ctx, p):
         ctx.nontrivial('scalar', c, op, m, k)
 
 
-RUNNERS = {'scalar': run_scalar, 'binop': run_binop, 'pow': run_pow, 'point': run_point, 'acc': run_acc, 'interp': run_interp}
+def run_twexp(ctx, p):
+    """Twist.exp(theta): M twists with N angles combine as 1xN, Mx1, MxM; two different lengths > 1 raise ValueError"""
+    c, A, ths = p['cls'], p['A'], [float(t) for t in p['thetas']]
+    m, n = len(A), len(ths)
+    sig = dict(api='%s.exp' % c, lens='%sx%s' % ('1' if m == 1 else 'M', '1' if n == 1 else 'N'))
+    arg = ths[0] if n == 1 and (m > 1 or p.get('scalar', True)) else (np.array(ths) if p.get('form', 'array') == 'array' else list(ths))
+    try:
+        res = mk(c, A).exp(arg)
+        raised = None
+    except Exception as e:
+        res, raised = None, e
+    if m != n and m > 1 and n > 1:
+        ctx.judge('mismatch', isinstance(raised, ValueError), dict(sig, kind='length_mismatch_not_ValueError', got=type(raised).__name__ if raised else 'returned'),
+                  lambda: '%s holding %d twists .exp(%d angles) must raise ValueError; %s' % (c, m, n, repr(raised) if raised else 'returned %d values' % len(getattr(res, 'data', []))))
+        ctx.cell('mismatch', c, 'exp', m, n)
+        ctx.nontrivial('mismatch', c, 'exp', m, n)
+        return
+    if raised is not None:
+        ctx.bad('binop', dict(sig, kind='raised_on_sequence', exc=type(raised).__name__), '%s (%d twists).exp(%d angles) raised %r' % (c, m, n, raised))
+        return
+    k = max(m, n)
+    try:
+        singles = [mk(c, [A[i if m > 1 else 0]]).exp(ths[i if n > 1 else 0]) for i in range(k)]
+    except Exception:
+        ctx.ood('binop')
+        return
+    ok = hasattr(res, 'data') and isinstance(res.data, list) and len(res.data) == k and all(close(res.data[i], singles[i].data[0]) for i in range(k))
+    ctx.judge('binop', ok, dict(sig, kind='element_mismatch'), lambda: '%s (%d twists).exp(%d angles) is not the per-pair exponential: %s' % (c, m, n, core.short(dat(res), 300)))
+    ctx.cell('binop', c, 'exp', m, n)
+    if k > 1:
+        ctx.nontrivial('twexp', c, m, n)
+
+
+RUNNERS = {'twexp': run_twexp, 'scalar': run_scalar, 'binop': run_binop, 'pow': run_pow, 'point': run_point, 'acc': run_acc, 'interp': run_interp}
 
 
 def REACH():
@@ -427,6 +462,15 @@ def run(ctx):
                 for _ in range(reps):
                     k = [2, -1, 3, 0.5, -2.5, float(rng.uniform(-4, 4))][rng.integers(6)]
                     drive(RUNNERS, ctx, 'scalar', dict(cls=c, op=op, A=elements(rng, c, m), k=k))
+    for c in TW:
+        for m in range(1, 6):
+            for n in range(1, 6):
+                i += 1
+                if not ctx.mine(i):
+                    continue
+                for _ in range(reps):
+                    drive(RUNNERS, ctx, 'twexp', dict(cls=c, A=elements(rng, c, m), thetas=[float(x) for x in rng.uniform(-3, 3, size=n)],
+                                                      scalar=bool(rng.integers(2)), form=['array', 'list'][rng.integers(2)]))
     acc = ACC()
     for name, (classes, fn) in acc.items():
         if fn is None:
